@@ -568,17 +568,10 @@ impl EpochDifficultyTrend {
         for group in &[details.start, details.end] {
             match group {
                 EpochCountGroupByTrend::Decreased(epochs_count) => {
-                    let state = "decreased";
-                    for index in 0..*epochs_count {
+                    for _ in 0..*epochs_count {
                         curr /= tau;
-                        total = total.checked_add(&curr).unwrap_or_else(|| {
-                            panic!(
-                                "overflow when calculate the limit of total difficulty, \
-                                total: {}, current: {}, index: {}/{}, tau: {}, \
-                                state: {}, trend: {:?}, details: {:?}",
-                                total, curr, index, epochs_count, tau, state, self, details
-                            );
-                        });
+                        // The sum is only compared with `actual`: saturate when it overflows.
+                        total = total.saturating_add(&curr);
                         if total >= *actual {
                             if check_max {
                                 debug!("check total difficulty: not greater than upper limit (short-circuit)");
@@ -595,17 +588,10 @@ impl EpochDifficultyTrend {
                     }
                 }
                 EpochCountGroupByTrend::Increased(epochs_count) => {
-                    let state = "increased";
-                    for index in 0..*epochs_count {
+                    for _ in 0..*epochs_count {
                         curr = curr.saturating_mul(&tau_u256);
-                        total = total.checked_add(&curr).unwrap_or_else(|| {
-                            panic!(
-                                "overflow when calculate the limit of total difficulty, \
-                                total: {}, current: {}, index: {}/{}, tau: {}, \
-                                state: {}, trend: {:?}, details: {:?}",
-                                total, curr, index, epochs_count, tau, state, self, details
-                            );
-                        });
+                        // The sum is only compared with `actual`: saturate when it overflows.
+                        total = total.saturating_add(&curr);
                         if total >= *actual {
                             if check_max {
                                 debug!("check total difficulty: not greater than upper limit (short-circuit)");
@@ -623,8 +609,9 @@ impl EpochDifficultyTrend {
                 }
             }
         }
+        let total_with_unaligned = total.saturating_add(unaligned);
         if check_max {
-            if &total + unaligned >= *actual {
+            if total_with_unaligned >= *actual {
                 debug!("check total difficulty: not greater than upper limit (fully-calculated)");
                 Ok(())
             } else {
@@ -634,7 +621,7 @@ impl EpochDifficultyTrend {
                 );
                 Err(errmsg)
             }
-        } else if &total + unaligned <= *actual {
+        } else if total_with_unaligned <= *actual && total.checked_add(unaligned).is_some() {
             debug!("check total difficulty: not less than lower limit (fully-calculated)");
             Ok(())
         } else {
@@ -1008,8 +995,17 @@ pub(crate) fn verify_tau(
     } else {
         let start_block_difficulty = compact_to_difficulty(start_compact_target);
         let end_block_difficulty = compact_to_difficulty(end_compact_target);
-        let start_epoch_difficulty = start_block_difficulty * start_epoch.length();
-        let end_epoch_difficulty = end_block_difficulty * end_epoch.length();
+        // All numbers are supplied by the peer.
+        let (start_epoch_difficulty, end_epoch_difficulty) = match (
+            start_block_difficulty.checked_mul(&U256::from(start_epoch.length())),
+            end_block_difficulty.checked_mul(&U256::from(end_epoch.length())),
+        ) {
+            (Some(start), Some(end)) => (start, end),
+            _ => {
+                let errmsg = "failed since the epoch difficulty overflows";
+                return Err(StatusCode::InvalidCompactTarget.with_context(errmsg));
+            }
+        };
         // How many times are epochs switched?
         let epochs_switch_count =
             if let Some(count) = end_epoch.number().checked_sub(start_epoch.number()) {
@@ -1048,9 +1044,22 @@ pub(crate) fn verify_total_difficulty(
     let total_difficulty = end_total_difficulty - start_total_difficulty;
     let start_block_difficulty = &compact_to_difficulty(start_compact_target);
 
+    // All numbers are supplied by the peer: the arithmetic on them has to be checked.
+    let overflow = || {
+        format!(
+            "failed since the numbers overflow during epochs ([{:#},{:#}])",
+            start_epoch, end_epoch
+        )
+    };
+
     if start_epoch.number() == end_epoch.number() {
-        let total_blocks_count = end_epoch.index() - start_epoch.index();
-        let total_difficulty_calculated = start_block_difficulty * total_blocks_count;
+        let total_blocks_count = end_epoch
+            .index()
+            .checked_sub(start_epoch.index())
+            .ok_or_else(overflow)?;
+        let total_difficulty_calculated = start_block_difficulty
+            .checked_mul(&U256::from(total_blocks_count))
+            .ok_or_else(overflow)?;
         if total_difficulty != total_difficulty_calculated {
             let errmsg = format!(
                 "failed since total difficulty is {:#x} \
@@ -1068,10 +1077,17 @@ pub(crate) fn verify_total_difficulty(
     } else {
         let end_block_difficulty = &compact_to_difficulty(end_compact_target);
 
-        let start_epoch_difficulty = start_block_difficulty * start_epoch.length();
-        let end_epoch_difficulty = end_block_difficulty * end_epoch.length();
+        let start_epoch_difficulty = start_block_difficulty
+            .checked_mul(&U256::from(start_epoch.length()))
+            .ok_or_else(overflow)?;
+        let end_epoch_difficulty = end_block_difficulty
+            .checked_mul(&U256::from(end_epoch.length()))
+            .ok_or_else(overflow)?;
         // How many times are epochs switched?
-        let epochs_switch_count = end_epoch.number() - start_epoch.number();
+        let epochs_switch_count = end_epoch
+            .number()
+            .checked_sub(start_epoch.number())
+            .ok_or_else(overflow)?;
         let epoch_difficulty_trend =
             EpochDifficultyTrend::new(&start_epoch_difficulty, &end_epoch_difficulty);
 
@@ -1087,10 +1103,19 @@ pub(crate) fn verify_total_difficulty(
             })?;
 
         // Step-2 Check the range of total difficulty.
-        let start_epoch_blocks_count = start_epoch.length() - start_epoch.index() - 1;
+        let start_epoch_blocks_count = start_epoch
+            .length()
+            .checked_sub(start_epoch.index() + 1)
+            .ok_or_else(overflow)?;
         let end_epoch_blocks_count = end_epoch.index() + 1;
-        let unaligned_difficulty_calculated = start_block_difficulty * start_epoch_blocks_count
-            + end_block_difficulty * end_epoch_blocks_count;
+        let unaligned_difficulty_calculated = start_block_difficulty
+            .checked_mul(&U256::from(start_epoch_blocks_count))
+            .and_then(|start| {
+                end_block_difficulty
+                    .checked_mul(&U256::from(end_epoch_blocks_count))
+                    .and_then(|end| start.checked_add(&end))
+            })
+            .ok_or_else(overflow)?;
         if epochs_switch_count == 1 {
             if total_difficulty != unaligned_difficulty_calculated {
                 let errmsg = format!(
